@@ -586,7 +586,14 @@ func (p *uPacketPacker) PackPTOProbePacket(
 		hdrLen := wire.ShortHeaderLen(connID, pnLen)
 		pl := p.maybeGetAppDataPacket(maxPacketSize-protocol.ByteCount(s.Overhead())-hdrLen, false, true, now, v)
 		if pl.length == 0 {
-			return nil, nil
+			if !addPingIfEmpty {
+				return nil, nil
+			}
+			// like packetPacker.packPTOProbePacket1RTT: a PTO probe must be ack-eliciting even if there is
+			// nothing to (re)transmit, otherwise Conn.sendProbePacket fails with "couldn't pack 1-RTT probe packet"
+			ping := &wire.PingFrame{}
+			pl.frames = append(pl.frames, ackhandler.Frame{Frame: ping, Handler: emptyHandler{}})
+			pl.length += ping.Length(v)
 		}
 		buffer := getPacketBuffer()
 		packet := &coalescedPacket{buffer: buffer}
